@@ -39,6 +39,7 @@ use std::ffi::CString;
 use std::ops::ControlFlow::Break;
 use yash_env::Env;
 use yash_env::builtin::Result;
+use yash_env::option::{Monitor, On};
 use yash_env::semantics::command::search::search_path;
 use yash_env::semantics::command::{ReplaceCurrentProcessError, replace_current_process};
 use yash_env::semantics::{Divert::Abort, ExitStatus, Field};
@@ -81,6 +82,21 @@ where
             let report = ExecFailure { inner: e, location };
             let _ = report_failure(env, &report).await;
             result.set_exit_status(env.exit_status);
+
+            if env.is_interactive() {
+                // The shell keeps running, so restore the internal
+                // dispositions disabled by `replace_current_process`.
+                env.traps
+                    .enable_internal_dispositions_for_terminators(&env.system)
+                    .await
+                    .ok();
+                if env.options.get(Monitor) == On {
+                    env.traps
+                        .enable_internal_dispositions_for_stoppers(&env.system)
+                        .await
+                        .ok();
+                }
+            }
         } else {
             let _ = report_failure(env, NotFound(name)).await;
             result.set_exit_status(ExitStatus::NOT_FOUND);
